@@ -13,3 +13,4 @@ import AGV.Props.C17
 #print axioms AGV.Props.C17.c17_witness_interface_order
 #print axioms AGV.Props.C17.c17_witness_dynamic_registration
 #print axioms AGV.Props.C17.c17_strings_block
+#print axioms AGV.Props.C17.c17_tokens_partial
